@@ -193,6 +193,33 @@ def history_effect(kind, ops, args, xs):
 NOPS = {"scalar": 6, "list": 7, "dict": 10, "class": 10}
 
 
+def independent_parses_ok(how, op, m, c1, c2, v):
+    """two separately parsed models with the same title: reconfiguring the first never changes how the second validates, and
+    the second validates by ITS OWN schema (lookalike literals 1 / True) - no state is shared between parse calls"""
+    from vf.common import parse_element, parse, accepts, oracle, jcopy, Integer, Property
+
+    S1 = {"type": "object", "title": "Account", "properties": {"name": {"type": "integer", "minimum": m}, "on": {"const": c1}}}
+    S2 = jcopy(S1)
+    S2["properties"]["on"] = {"const": c2}
+    if how == 0:
+        A, B = parse_element(jcopy(S1)), parse_element(jcopy(S2))
+    elif how == 1:
+        A, B = parse(jcopy(S1))[0], parse_element(jcopy(S2))
+    else:
+        A, B = parse(jcopy(S1))[0], parse(jcopy(S2))[0]
+    if B.__name__ != "Account":
+        return False
+    if op == 0:
+        A.additionalProperties = False
+    elif op == 1:
+        A.properties["name"].required = True
+    elif op == 2:
+        A.properties["extra"] = Property(Integer(), required=True)
+    else:
+        A.minProperties = 2
+    return accepts(B, jcopy(v)) == oracle(S2, v)
+
+
 def harnesses(ctx) -> List[H]:
     import itertools
 
@@ -217,6 +244,12 @@ def harnesses(ctx) -> List[H]:
                 hs.append(mk(f"c13_{kind}_k{K}_{nm}", "args: List[int], xs: List[int]", pre,
                              f"return run_history({kind!r}, {list(seq)!r}, args, xs)", tier=tier, timeout=to, group=f"history-{kind}",
                              covers=f"op sequence {seq} on a {kind} target (operands, values symbolic), validation after every step vs fresh element"))
+    for how in range(3):
+        for op in range(4):
+            hs.append(mk(f"c13_independent_parses_h{how}_o{op}", "m: int, c1: Union[int, bool], c2: Union[int, bool], hn: bool, n: int, ho: bool, o: Union[int, bool], hz: bool", [],
+                         f"v = {{}}\nif hn: v['name'] = n\nif ho: v['on'] = o\nif hz: v['z'] = 0\nreturn independent_parses_ok({how}, {op}, m, c1, c2, v)", timeout=120, group="history",
+                         tier="quick" if (how, op) in ((0, 0), (0, 3), (1, 1), (2, 2)) else "thorough",
+                         covers="two same-titled object schemas parsed by separate parse_element()/parse() calls; the first is reconfigured; the second still validates by its own schema (const lookalikes 1 / True)"))
     for kind in ("scalar", "dict"):
         pre = ["len(ops) == 1", "len(args) == 1", "len(xs) == 1", "all(0 <= o < 9 for o in ops)", "all(0 <= a < 64 for a in args)"]
         hs.append(mk(f"c13_{kind}__effect", "ops: List[int], args: List[int], xs: List[int]", pre,
